@@ -1,6 +1,6 @@
 (* Props/C11.v — property theorems only (C11: JSON export and load round-trip). *)
 From Coq Require Import List NArith ZArith Bool.
-From N0 Require Import Base.PyStr Base.PyVal Export.Util Export.Json Export.JsonGrammar Export.JsonProofs Export.JsonScan.
+From N0 Require Import Base.PyStr Base.PyVal Export.Util Export.Json Export.JsonGrammar Export.JsonProofs Export.JsonScan Export.PruneIdem.
 Import ListNotations.
 
 (* For every formatting option record (any integer indent, pairs_in_one_line,
@@ -38,6 +38,15 @@ Theorem C11_skip_drops_only_empties :
   (forall t t', prune t = Some t' -> no_empty t' = true).
 Proof. exact (conj skip_changes_nothing_without_empties prune_no_empty). Qed.
 Print Assumptions C11_skip_drops_only_empties.
+
+(* ... and dropping is idempotent: a second skip_empty_arrays pass over what the
+   first one left changes nothing (no container becomes empty "late") *)
+Theorem C11_skip_idempotent :
+  (forall t t', prune t = Some t' -> prune t' = Some t') /\
+  (forall t, prune_root (prune_root t) = prune_root t) /\
+  (forall t, exported true (prune_root t) = exported true t).
+Proof. exact (conj prune_idempotent (conj prune_root_idempotent exported_skip_idempotent)). Qed.
+Print Assumptions C11_skip_idempotent.
 
 (* [ext] a necessary condition for being a JSON text at all, as an executable scanner (string
    and escape structure, position of commas, colons and brackets, start of values): every
